@@ -1,6 +1,8 @@
 """Stand-in values shared by the rules that interpret methods of sigma.types (sa.tabulate)."""
 from __future__ import annotations
 
+import ast
+
 
 def string_standin(ctx):
     """A SigmaString stand-in for interpreting its methods (sa.tabulate): parts list `s`, concatenation, placeholder test;
@@ -364,3 +366,60 @@ def backend_with_real_init(ctx, user_pipeline=True):
         return call_method(prog, B, "init_processing_pipeline", me, env, fmt, interp_kwargs=IK)
     me.init_processing_pipeline = init
     return me, env, IK, inits
+
+
+def class_swap_outcome(ctx, cq: str, method: str, on_args=(True,), off_args=(False,)):
+    """A context manager that swaps class attributes, interpreted (sa.tabulate, Proxy) with every template attribute of the
+    class set to a distinct marker. → namespace: at_yield {name: value} (attributes that differ at the suspension point),
+    restored_normal, restored_exception (exception thrown into the with-body), exception_propagates, off_changes."""
+    import types as _types
+    from ..tabulate import Proxy, call_method, Raised
+    prog = ctx.prog
+    names = set()
+    for q in prog.mro(cq):
+        c = prog.classes.get(q)
+        if c is not None:
+            for n, sts in c.assigns.items():  # the templates: class attributes holding text (or None)
+                v = getattr(sts[-1], "value", None)
+                if n.endswith(("_expression", "_token")) and not n.startswith("_") and (v is None or (isinstance(v, ast.Constant) and (v.value is None or isinstance(v.value, str)))):
+                    names.add(n)
+    orig = {n: f"orig:{n}" for n in sorted(names)}
+
+    class _Boom(Exception):
+        pass
+
+    def run(args, boom=False):
+        snap: dict = {}
+        over = dict(orig)
+        def hook(v):
+            snap.update(over_ref())
+            if boom:
+                raise _Boom("thrown into the with-body")
+        env = {"__on_yield__": hook, "cast": lambda t, v: v}
+        IK = {"behaviours": (_Boom,), "max_steps": 8000}
+        me = Proxy(prog, cq, env, {}, interp_kwargs=IK, class_overrides=over)
+        k = object.__getattribute__(me, "_k")
+        over_ref = lambda: dict(object.__getattribute__(k, "_p")[5])  # noqa: E731
+        raised = None
+        try:
+            res = call_method(prog, cq, method, me, env, *args, interp_kwargs=IK)
+            if hasattr(res, "__next__"):
+                list(res)
+        except Raised as ex:
+            raised = ex
+        return snap, over_ref(), raised, me.attrs()
+
+    out = _types.SimpleNamespace()
+    snap, after, raised, inst = run(on_args)
+    out.at_yield = {n: v for n, v in snap.items() if orig.get(n) != v}
+    out.yielded = bool(snap)
+    out.restored_normal = (after == orig) and raised is None
+    out.instance_attrs_written = sorted(inst)
+    snap, after, raised, inst = run(on_args, boom=True)
+    out.restored_exception = after == orig
+    out.exception_propagates = raised is not None and "_Boom" in str(raised)
+    snap, after, raised, inst = run(off_args)
+    out.off_changes = {n: v for n, v in snap.items() if orig.get(n) != v} or {n: v for n, v in after.items() if orig.get(n) != v}
+    out.off_yielded = bool(snap)
+    out.orig = orig
+    return out
